@@ -122,33 +122,35 @@ type Mgr = VsockConnectionManager<THal<8>, crate::queue::__verif_q_env::MT<VsDev
 const CAP: u32 = 8;
 const GCID: u64 = 3;
 
-fn any_conn(peer: VsockAddr, port: u32) -> Connection { any_conn_at(peer, port, None) }
+/// put connection `c` (created by the real connect()) into an arbitrary state
 /// `ring`: concrete (start, used) for harnesses whose step copies bytes (constant-size copies)
-fn any_conn_at(peer: VsockAddr, port: u32, ring: Option<(usize, usize)>) -> Connection {
-    let mut c = Connection::new(peer, port, CAP);
+fn havoc_conn(c: &mut Connection, peer: VsockAddr, port: u32, ring: Option<(usize, usize)>) {
     c.info = any_info_for(peer, port, CAP);
     c.established = kani::any();
     c.peer_requested_shutdown = kani::any();
-    // arbitrary ring-buffer state
     let (start, used): (usize, usize) = if let Some(r) = ring { r } else { (kani::any(), kani::any()) };
     kani::assume(start < CAP as usize && used <= CAP as usize);
     c.buffer.start = start;
     c.buffer.used = used;
     // the peer asks for shutdown only while data is still buffered (otherwise the connection is removed at once)
     kani::assume(!c.peer_requested_shutdown || used > 0);
-    c
 }
 
 /// manager with two connections (distinct (peer, local port) pairs) in arbitrary states and one listening port
 fn mk_mgr() -> (Mgr, [VsockAddr; 2], [u32; 2], u32) { mk_mgr_at(None) }
-fn mk_mgr_at(ring0: Option<(usize, usize)>) -> (Mgr, [VsockAddr; 2], [u32; 2], u32) {
+fn mk_mgr_at(ring0: Option<(usize, usize)>) -> (Mgr, [VsockAddr; 2], [u32; 2], u32) { mk_mgr_n(ring0, 2) }
+fn mk_mgr_n(ring0: Option<(usize, usize)>, nconn: usize) -> (Mgr, [VsockAddr; 2], [u32; 2], u32) {
     let sock = mk_sock_stubbed(GCID);
-    let mut m = VsockConnectionManager::new_with_capacity(sock, CAP);
+    let mut m: Mgr = VsockConnectionManager::new_with_capacity(sock, CAP);
     let peers = [VsockAddr { cid: kani::any(), port: kani::any() }, VsockAddr { cid: kani::any(), port: kani::any() }];
     let ports: [u32; 2] = kani::any();
     kani::assume(!(peers[0] == peers[1] && ports[0] == ports[1]));
-    m.connections.push(any_conn_at(peers[0], ports[0], ring0));
-    m.connections.push(any_conn(peers[1], ports[1]));
+    m.connect(peers[0], ports[0]).unwrap();
+    havoc_conn(&mut m.connections[0], peers[0], ports[0], ring0);
+    if nconn == 2 {
+        m.connect(peers[1], ports[1]).unwrap();
+        havoc_conn(&mut m.connections[1], peers[1], ports[1], None);
+    }
     let lp: u32 = kani::any();
     m.listen(lp);
     unsafe { ST_TX_N = 0; }
@@ -164,9 +166,19 @@ fn snap(c: &Connection) -> (ConnectionInfo, usize, usize, bool, bool) {
 #[kani::stub(VirtIOSocket::poll, VirtIOSocket::stub_poll)]
 #[kani::stub(VirtIOSocket::send_packet_to_tx_queue, VirtIOSocket::stub_send_packet)]
 #[kani::unwind(12)]
-fn c18_dispatch() {
-    let (mut m, peers, ports, lp) = mk_mgr();
-    let s0 = [snap(&m.connections[0]), snap(&m.connections[1])];
+fn c18_dispatch_one() { dispatch_body(1) }
+
+// two connections: isolation between connections (thorough: ~15 min)
+// @harness props=C18,C17 tier=thorough timeout=5400 stubbed=vsock-io
+#[kani::proof]
+#[kani::stub(VirtIOSocket::poll, VirtIOSocket::stub_poll)]
+#[kani::stub(VirtIOSocket::send_packet_to_tx_queue, VirtIOSocket::stub_send_packet)]
+#[kani::unwind(12)]
+fn c18_dispatch_two() { dispatch_body(2) }
+
+fn dispatch_body(nconn: usize) {
+    let (mut m, peers, ports, lp) = mk_mgr_n(None, nconn);
+    let s0 = [snap(&m.connections[0]), snap(&m.connections[nconn - 1])];
     let src = VsockAddr { cid: kani::any(), port: kani::any() };
     let dst = VsockAddr { cid: kani::any(), port: kani::any() };
     let blen: usize = 0;
@@ -187,33 +199,35 @@ fn c18_dispatch() {
     }
     let r = m.poll();
     let m0 = src == peers[0] && dst.cid == GCID && dst.port == ports[0];
-    let m1 = !m0 && src == peers[1] && dst.cid == GCID && dst.port == ports[1];
+    let m1 = nconn == 2 && !m0 && src == peers[1] && dst.cid == GCID && dst.port == ports[1];
     let n_tx = unsafe { ST_TX_N };
     if !m0 && !m1 {
         if et == VsockEventType::ConnectionRequest && dst.cid == GCID {
             if dst.port == lp {
                 assert!(r.as_ref().map(|e| e.is_some()) == Ok(true), "C18: a request to a listening port must be reported");
                 assert!(n_tx == 1 && unsafe { ST_TX_OP[0] == 2 && ST_TX_DST[0] == src && ST_TX_SRC_PORT[0] == dst.port }, "C18: a request to a listening port must be answered with a response to the requester");
-                assert!(m.connections.len() == 3 && m.connections[2].established && m.connections[2].info.dst == src && m.connections[2].info.src_port == dst.port, "C18: accepted connection must be recorded as established");
-                assert!(m.connections[2].info.buf_alloc == CAP && unsafe { ST_TX_BUF_ALLOC[0] } == CAP, "C17: advertised buffer allocation must be the connection's buffer capacity");
+                assert!(m.connections.len() == nconn + 1 && m.connections[nconn].established && m.connections[nconn].info.dst == src && m.connections[nconn].info.src_port == dst.port, "C18: accepted connection must be recorded as established");
+                assert!(m.connections[nconn].info.buf_alloc == CAP && unsafe { ST_TX_BUF_ALLOC[0] } == CAP, "C17: advertised buffer allocation must be the connection's buffer capacity");
             } else {
                 assert!(r == Ok(None), "C18: a request to a port nobody listens on must not be reported");
                 assert!(n_tx == 1 && unsafe { ST_TX_OP[0] == 3 && ST_TX_DST[0] == src }, "C18: a request to a port nobody listens on must be reset");
-                assert!(m.connections.len() == 2, "C18: rejected request must leave no connection state");
+                assert!(m.connections.len() == nconn, "C18: rejected request must leave no connection state");
             }
         } else {
             // packets matching no known connection (or requests for a foreign CID): nothing happens
-            assert!(r == Ok(None) && n_tx == 0 && m.connections.len() == 2, "C18: a packet matching no known connection must create no state, deliver nothing and send nothing");
+            assert!(r == Ok(None) && n_tx == 0 && m.connections.len() == nconn, "C18: a packet matching no known connection must create no state, deliver nothing and send nothing");
         }
         // the existing connections are untouched in every one of these cases
-        assert!(snap(&m.connections[0]) == s0[0] && snap(&m.connections[1]) == s0[1], "C18: a packet for an unknown connection changed an existing connection");
+        assert!(snap(&m.connections[0]) == s0[0] && snap(&m.connections[nconn - 1]) == s0[1], "C18: a packet for an unknown connection changed an existing connection");
     } else {
         let (me, other) = if m0 { (0usize, 1usize) } else { (1, 0) };
         let old = &s0[me];
         // isolation: the other connection is bit-for-bit unchanged (it may have moved if `me` was removed)
-        let removed = m.connections.len() == 1;
-        let other_now = if removed { snap(&m.connections[0]) } else { snap(&m.connections[other]) };
-        assert!(other_now == s0[other], "C18: an event for one connection affected another connection");
+        let removed = m.connections.len() == nconn - 1;
+        if nconn == 2 {
+            let other_now = if removed { snap(&m.connections[0]) } else { snap(&m.connections[other]) };
+            assert!(other_now == s0[other], "C18: an event for one connection affected another connection");
+        }
         match et {
             VsockEventType::ConnectionRequest => {
                 // a request that matches an existing connection: treated per the listening state of the port
@@ -261,42 +275,49 @@ fn c18_dispatch() {
         }
     }
     core::mem::forget(m);
-    kani::cover!(m1 && et == VsockEventType::CreditRequest);
+    kani::cover!((m1 || nconn == 1 && m0) && et == VsockEventType::CreditRequest);
     kani::cover!(!m0 && !m1 && et == VsockEventType::ConnectionRequest && dst.cid == GCID && dst.port == lp);
     kani::cover!(m0 && et == VsockEventType::Disconnected { reason: DisconnectReason::Shutdown } && s0[0].2 > 0);
 }
 
 // recv: drains in order, forwards exactly what it drained, closes a shut-down connection once drained
-// @harness props=C17,C18 tier=quick timeout=3600 stubbed=vsock-io
+// @harness props=C17,C18 tier=thorough timeout=5400 stubbed=vsock-io
 #[kani::proof]
 #[kani::stub(VirtIOSocket::poll, VirtIOSocket::stub_poll)]
 #[kani::stub(VirtIOSocket::send_packet_to_tx_queue, VirtIOSocket::stub_send_packet)]
 #[kani::unwind(12)]
-fn c17_manager_recv_step() { recv_body(Some((7, 3)), 4) }
+fn c17_manager_recv_step() { recv_body(Some((7, 3)), 4, 2) }
 
 // @harness props=C17,C18 tier=quick timeout=3600 stubbed=vsock-io
 #[kani::proof]
 #[kani::stub(VirtIOSocket::poll, VirtIOSocket::stub_poll)]
 #[kani::stub(VirtIOSocket::send_packet_to_tx_queue, VirtIOSocket::stub_send_packet)]
 #[kani::unwind(12)]
-fn c17_manager_recv_partial() { recv_body(Some((6, 5)), 2) }
+fn c17_manager_recv_one() { recv_body(Some((7, 3)), 4, 1) }
+
+// @harness props=C17,C18 tier=thorough timeout=5400 stubbed=vsock-io
+#[kani::proof]
+#[kani::stub(VirtIOSocket::poll, VirtIOSocket::stub_poll)]
+#[kani::stub(VirtIOSocket::send_packet_to_tx_queue, VirtIOSocket::stub_send_packet)]
+#[kani::unwind(12)]
+fn c17_manager_recv_partial() { recv_body(Some((6, 5)), 2, 2) }
 
 // @harness props=C17,C18 tier=thorough timeout=3600 stubbed=vsock-io
 #[kani::proof]
 #[kani::stub(VirtIOSocket::poll, VirtIOSocket::stub_poll)]
 #[kani::stub(VirtIOSocket::send_packet_to_tx_queue, VirtIOSocket::stub_send_packet)]
 #[kani::unwind(12)]
-fn c17_manager_recv_empty() { recv_body(Some((2, 0)), 4) }
+fn c17_manager_recv_empty() { recv_body(Some((2, 0)), 4, 1) }
 
-fn recv_body(ring0: Option<(usize, usize)>, n: usize) {
-    let (mut m, peers, ports, _lp) = mk_mgr_at(ring0);
+fn recv_body(ring0: Option<(usize, usize)>, n: usize, nconn: usize) {
+    let (mut m, peers, ports, _lp) = mk_mgr_n(ring0, nconn);
     let b: [u8; 8] = kani::any();
     let mut i = 0;
     while i < 8 {
         m.connections[0].buffer.buffer[i] = b[i];
         i += 1;
     }
-    let s0 = [snap(&m.connections[0]), snap(&m.connections[1])];
+    let s0 = [snap(&m.connections[0]), snap(&m.connections[nconn - 1])];
     let first: [u8; 2] = [m.connections[0].buffer.buffer[m.connections[0].buffer.start], m.connections[0].buffer.buffer[(m.connections[0].buffer.start + 1) % CAP as usize]];
     let mut out = [0u8; 4];
     let r = m.recv(peers[0], ports[0], &mut out[..n]);
@@ -307,20 +328,20 @@ fn recv_body(ring0: Option<(usize, usize)>, n: usize) {
     if want >= 2 { assert!(out[1] == first[1], "C17: bytes read from a connection must be the oldest buffered bytes, in order"); }
     let closing = s0[0].4 && used == want;
     if closing {
-        assert!(m.connections.len() == 1 && unsafe { ST_TX_N == 1 && ST_TX_OP[0] == 3 && ST_TX_DST[0] == peers[0] }, "C18: after a peer shutdown the connection is closed with a reset once drained");
-        assert!(snap(&m.connections[0]) == s0[1], "C18: closing one connection affected another");
+        assert!(m.connections.len() == nconn - 1 && unsafe { ST_TX_N == 1 && ST_TX_OP[0] == 3 && ST_TX_DST[0] == peers[0] }, "C18: after a peer shutdown the connection is closed with a reset once drained");
+        if nconn == 2 { assert!(snap(&m.connections[0]) == s0[1], "C18: closing one connection affected another"); }
     } else {
-        assert!(m.connections.len() == 2 && unsafe { ST_TX_N } == 0, "C18: recv must not send or remove anything otherwise");
+        assert!(m.connections.len() == nconn && unsafe { ST_TX_N } == 0, "C18: recv must not send or remove anything otherwise");
         let c = &m.connections[0];
         assert!(c.buffer.used == used - want, "C17: recv must consume exactly what it returned");
         // advertised credit never overstates free space: forwarded count advances by exactly the drained bytes
         assert!(ci_fwd_cnt(&c.info) == ci_fwd_cnt(&s0[0].0).wrapping_add(want as u32), "C17: forwarded-byte count must advance by exactly the bytes handed to the caller (modulo 2^32)");
-        assert!(snap(&m.connections[1]) == s0[1], "C18: recv on one connection affected another");
+        if nconn == 2 { assert!(snap(&m.connections[1]) == s0[1], "C18: recv on one connection affected another"); }
     }
     // unknown connection
     let up = VsockAddr { cid: kani::any(), port: kani::any() };
     let uport: u32 = kani::any();
-    kani::assume(!(up == peers[0] && uport == ports[0]) && !(up == peers[1] && uport == ports[1]));
+    kani::assume(!(up == peers[0] && uport == ports[0]) && !(nconn == 2 && up == peers[1] && uport == ports[1]));
     let before = m.connections.len();
     assert!(m.recv(up, uport, &mut out) == Err(SocketError::NotConnected.into()), "C18: operations on unknown connections must fail with NotConnected");
     assert!(m.recv_buffer_available_bytes(up, uport) == Err(SocketError::NotConnected.into()) && m.shutdown(up, uport) == Err(SocketError::NotConnected.into()) && m.force_close(up, uport) == Err(SocketError::NotConnected.into()) && m.update_credit(up, uport) == Err(SocketError::NotConnected.into()) && m.send(up, uport, &out) == Err(SocketError::NotConnected.into()), "C18: operations on unknown connections must fail with NotConnected");
@@ -337,14 +358,13 @@ fn recv_body(ring0: Option<(usize, usize)>, n: usize) {
 #[kani::stub(VirtIOSocket::send_packet_to_tx_queue, VirtIOSocket::stub_send_packet)]
 #[kani::unwind(12)]
 fn c18_local_ops() {
-    let (mut m, peers, ports, lp) = mk_mgr();
-    let s1 = snap(&m.connections[1]);
-    assert!(m.connect(peers[0], ports[0]) == Err(SocketError::ConnectionExists.into()) && unsafe { ST_TX_N } == 0 && m.connections.len() == 2, "C18: duplicate connect must fail with ConnectionExists and send nothing");
+    let (mut m, peers, ports, lp) = mk_mgr_n(Some((0, 0)), 1);
+    assert!(m.connect(peers[0], ports[0]) == Err(SocketError::ConnectionExists.into()) && unsafe { ST_TX_N } == 0 && m.connections.len() == 1, "C18: duplicate connect must fail with ConnectionExists and send nothing");
     let np = VsockAddr { cid: kani::any(), port: kani::any() };
     let nport: u32 = kani::any();
-    kani::assume(!(np == peers[0] && nport == ports[0]) && !(np == peers[1] && nport == ports[1]));
-    assert!(m.connect(np, nport).is_ok() && m.connections.len() == 3 && unsafe { ST_TX_N == 1 && ST_TX_OP[0] == 1 && ST_TX_DST[0] == np && ST_TX_SRC_PORT[0] == nport && ST_TX_BUF_ALLOC[0] == CAP }, "C18: connect sends one request and records the connection");
-    assert!(!m.connections[2].established && m.is_connection_established(np, nport) == Ok(false), "C18: a requested connection is not established until the peer responds");
+    kani::assume(!(np == peers[0] && nport == ports[0]));
+    assert!(m.connect(np, nport).is_ok() && m.connections.len() == 2 && unsafe { ST_TX_N == 1 && ST_TX_OP[0] == 1 && ST_TX_DST[0] == np && ST_TX_SRC_PORT[0] == nport && ST_TX_BUF_ALLOC[0] == CAP }, "C18: connect sends one request and records the connection");
+    assert!(!m.connections[1].established && m.is_connection_established(np, nport) == Ok(false), "C18: a requested connection is not established until the peer responds");
     m.listen(lp);
     m.listen(lp);
     assert!(m.listening_ports.len() == 1, "C18: listen must be idempotent");
@@ -352,9 +372,8 @@ fn c18_local_ops() {
     m.unlisten(lp);
     assert!(m.listening_ports.is_empty(), "C18: unlisten must be idempotent");
     unsafe { ST_TX_N = 0; }
-    assert!(m.force_close(peers[0], ports[0]).is_ok() && m.connections.len() == 2 && unsafe { ST_TX_N == 1 && ST_TX_OP[0] == 3 && ST_TX_DST[0] == peers[0] }, "C18: force_close resets and removes exactly that connection");
-    let still = m.connections.iter().filter(|c| c.info.dst == peers[1] && c.info.src_port == ports[1]).count();
-    assert!(still == 1, "C18: force_close removed the wrong connection");
+    assert!(m.force_close(peers[0], ports[0]).is_ok() && m.connections.len() == 1 && unsafe { ST_TX_N == 1 && ST_TX_OP[0] == 3 && ST_TX_DST[0] == peers[0] }, "C18: force_close resets and removes exactly that connection");
+    assert!(m.connections[0].info.dst == np && m.connections[0].info.src_port == nport, "C18: force_close removed the wrong connection");
     core::mem::forget(m);
     kani::cover!(np == peers[0]);
     kani::cover!(lp == ports[0]);
